@@ -14,7 +14,8 @@
    [ssa_needs_line_bound], [ssa_line_bound_sharp_128], [ssa_real_line_bound]   the bound is needed and sharp. *)
 From Coq Require Import List ZArith NArith Bool Arith Lia Permutation.
 From Astisub Require Import Kit.Base Kit.Str Kit.Scan Kit.ScanLim Model.Dur Model.Ssa.
-From Astisub Require Import Proofs.ScanLimProofs Proofs.EolProofs Proofs.LineBound.
+From Astisub Require Import Proofs.ScanLimProofs Proofs.EolProofs Proofs.SrtProofs Proofs.LineBound.
+From Astisub Require Import Proofs.SsaFields Proofs.SsaText.
 From Astisub Require Import Proofs.SsaRows Proofs.SsaInfo Proofs.SsaStyles Proofs.SsaEvents Proofs.SsaDoc Proofs.SsaOrder Proofs.SsaRepr
   Proofs.SsaRead Proofs.SsaReadAny Proofs.SsaWriteRender Proofs.SsaReadAll.
 Import ListNotations.
@@ -167,6 +168,91 @@ Definition ssa_bytes (d : adoc) : str := match write_ssa d (style_keys d) with O
 
 Lemma a_adoc_repr_128 : doc_repr (a_adoc 74) /\ doc_repr (a_adoc 75) /\ doc_repr (a_adoc 76).
 Proof. split; [|split]; apply doc_reprb_ok; vm_compute; reflexivity. Qed.
+
+(* a_adoc n is representable for every n > 0 (the boolean check is quadratic in n by computation: proved instead) *)
+Lemma a_item_text t : item_text_ssa [mkAline [] [mkArun t None]] = t.
+Proof. unfold item_text_ssa, line_string, run_string. cbn [map join al_runs ar_eff ar_text concat app]. apply app_nil_r. Qed.
+
+Lemma a_adoc_repr n : (0 < n)%N -> doc_repr (a_adoc n).
+Proof.
+  intros Hn. assert (Ht : trim_space (a_line n) = a_line n) by (apply SrtProofs.trim_space_all_plain, a_line_plain).
+  assert (Hne : a_line n <> []) by (apply a_line_nonnil; exact Hn).
+  split; [|split; [|split]].
+  - split; [reflexivity|]. split; [constructor|]. split; [reflexivity | constructor].
+  - apply info_okb_ok. vm_compute. reflexivity.
+  - discriminate.
+  - constructor; [|constructor]. split; [|split; [exact I | split; [discriminate|]]].
+    + unfold event_repr, event_ok, event_of_item. cbn [ai_inl ai_lines ai_start ai_end ai_style ae_effect ae_layer ae_marked ae_ml ae_mr ae_mv
+        av_start av_end av_layer av_ml av_mr av_mv av_effect av_name av_style av_text].
+      rewrite a_item_text. unfold int_ok, oz, max_int64, item_name. cbn [fold_left al_voice].
+      repeat split; try lia; try (intros []); try exact Ht; try exact (nobrk_repeat _).
+    + constructor; [|constructor]. unfold line_ok, runs_ok, no_nl, text_ok, line_string, run_string.
+      cbn [al_runs ar_eff ar_text map concat app]. rewrite app_nil_r.
+      split; [|split; [split|exact Ht]].
+      * split; [constructor|]. right. split; [reflexivity|]. split; [|left; exact Hne].
+        split; apply a_line_not_in; discriminate.
+      * apply SrtProofs.contains_none. apply a_line_not_in. discriminate.
+      * apply SrtProofs.contains_none. apply a_line_not_in. discriminate.
+Qed.
+
+(* the lines written for it: [Script Info], an empty line, [Events], the Format line (80 bytes), the row = 52 bytes + the text *)
+Definition aitem1 (t : str) : aitem := mkAitem 1000000000%Z 2000000000%Z None None [mkAline [] [mkArun t None]].
+Definition row_pfx : str := Eval vm_compute in (n_dialogue_pfx ++ event_string (event_of_item (aitem1 [])) (event_format false)).
+Lemma join_snoc1 sep : forall l x, l <> [] -> join sep (l ++ [x]) = join sep l ++ sep ++ x.
+Proof.
+  induction l as [|a l IH]; intros x Hne; [contradiction|]. destruct l as [|b l']; [reflexivity|].
+  change (join sep ((a :: b :: l') ++ [x])) with (a ++ sep ++ join sep ((b :: l') ++ [x])).
+  rewrite (IH x ltac:(discriminate)). change (join sep (a :: b :: l')) with (a ++ sep ++ join sep (b :: l')).
+  rewrite <- !app_assoc. reflexivity.
+Qed.
+Lemma a_row t : n_dialogue_pfx ++ event_string (event_of_item (aitem1 t)) (event_format false) = row_pfx ++ t.
+Proof.
+  unfold event_string. rewrite event_format_init, map_app. cbn [map]. rewrite join_snoc1 by discriminate.
+  cbn [event_cell_string]. unfold event_of_item at 2. cbn [aitem1 ai_lines av_text]. rewrite a_item_text.
+  rewrite !app_assoc. f_equal; try (vm_compute; reflexivity).
+Qed.
+Lemma a_adoc_lines n : exists pre, doc_lines (a_adoc n) = pre ++ [row_pfx ++ a_line n] /\ map (@length byte) pre = [13; 0; 8; 80]%nat.
+Proof.
+  exists (info_lines ainfo0 ++ [[]; n_events_hdr; n_format_pfx ++ join comma_sp (map eattr_name (event_format false))]).
+  split; [|vm_compute; reflexivity].
+  unfold doc_lines, events_lines. change (is_v4plus (a_adoc n)) with false. change (canon_info (a_adoc n)) with ainfo0.
+  cbn [a_adoc ad_styles ad_items map app]. change (mkAitem 1000000000 2000000000 None None [mkAline [] [mkArun (a_line n) None]]) with (aitem1 (a_line n)).
+  rewrite a_row, <- app_assoc. reflexivity.
+Qed.
+Lemma row_pfx_length : length row_pfx = 52%nat. Proof. reflexivity. Qed.
+
+(* FOR EVERY BUFFER SIZE above the Format line and every schedule: a row of 52 + n bytes is read back iff 52 + n + 1 <= max *)
+Theorem ssa_line_bound_sharp max n : (81 <= max)%nat -> (0 < n)%N ->
+  doc_repr (a_adoc n) /\
+  exists data, write_ssa (a_adoc n) (style_keys (a_adoc n)) = Ok data /\ read_ssa data = Ok (canon_doc (a_adoc n)) /\
+    ((52 + N.to_nat n + 1 <= max)%nat -> forall counts, read_ssa_lim max data counts = Ok (canon_doc (a_adoc n))) /\
+    ((max < 52 + N.to_nat n + 1)%nat -> forall counts, exists k, read_ssa_lim max data counts = Err k).
+Proof.
+  intros Hmax Hn. pose proof (a_adoc_repr n Hn) as Hr. split; [exact Hr|].
+  destruct (write_read_ssa_exact max _ ltac:(lia) Hr) as (data & Hw & Hin & Hout).
+  destruct (write_read _ Hr) as (data' & Hw' & Hrd). rewrite Hw in Hw'. inversion Hw'; subst data'.
+  destruct (a_adoc_lines n) as (pre & E & Lp). rewrite E in Hin, Hout.
+  exists data. split; [exact Hw|]. split; [exact Hrd|].
+  destruct pre as [|p1 [|p2 [|p3 [|p4 [|p5 pre']]]]]; try discriminate Lp. cbn [map] in Lp. injection Lp as L1 L2 L3 L4. split.
+  - intros Hle. apply Hin. cbn [app]. repeat constructor; rewrite ?L1, ?L2, ?L3, ?L4, ?app_length, ?row_pfx_length, ?a_line_length; lia.
+  - intros Hgt. apply Hout. cbn [app]. do 4 right. left. rewrite app_length, row_pfx_length, a_line_length. exact Hgt.
+Qed.
+
+(* the real constant: a row of 65535 bytes is read back, one of 65536 bytes is refused (both for every schedule); the
+   document with the row of 65536 bytes satisfies every hypothesis of C04_write_read *)
+Theorem ssa_real_line_bound_full :
+  doc_repr (a_adoc 65484) /\
+  (exists data, write_ssa (a_adoc 65483) (style_keys (a_adoc 65483)) = Ok data /\
+     forall counts, read_ssa_lim max_scan_token data counts = Ok (canon_doc (a_adoc 65483))) /\
+  (exists data, write_ssa (a_adoc 65484) (style_keys (a_adoc 65484)) = Ok data /\ read_ssa data = Ok (canon_doc (a_adoc 65484)) /\
+     forall counts, exists k, read_ssa_lim max_scan_token data counts = Err k).
+Proof.
+  split; [apply a_adoc_repr; reflexivity|]. split.
+  - destruct (ssa_line_bound_sharp max_scan_token 65483 ltac:(unfold max_scan_token; lia) eq_refl) as (_ & data & Hw & _ & Hin & _).
+    exists data. split; [exact Hw|]. apply Hin. unfold max_scan_token. lia.
+  - destruct (ssa_line_bound_sharp max_scan_token 65484 ltac:(unfold max_scan_token; lia) eq_refl) as (_ & data & Hw & Hrd & _ & Hout).
+    exists data. split; [exact Hw|]. split; [exact Hrd|]. apply Hout. unfold max_scan_token. lia.
+Qed.
 
 (* FOR EVERY SCHEDULE (through the exact theorem), buffer of 128 bytes: a row of 127 bytes (75 letters) is read back, a row
    of 128 bytes (76 letters) is refused, and the unbounded splitter of C04_write_read returns the item *)
